@@ -6,10 +6,11 @@ import Driver.Util
 import Driver.Handlers.Dates
 import Driver.Handlers.DateParse
 import Driver.Handlers.Decoder
+import Driver.Handlers.Resolve
 namespace Driver
 
 def handlers : List (String → List String → Option String) :=
-  [handleDates, handleDateParse, handleDecoder]
+  [handleDates, handleDateParse, handleDecoder, handleResolve]
 
 def respond (line : String) : String :=
   match line.splitOn " " with
